@@ -11,7 +11,7 @@ from .C03 import placed_threshold
 def run(chk):
     chk.prove()
     r = gen.rng(chk.seed, "C06")
-    n_cases = 40 if chk.tier == "quick" else 400
+    n_cases = 40 if chk.tier == "quick" else 2000
     terms = []
     for i in range(n_cases):
         init, X = kt.gen_clusters(r)
@@ -89,7 +89,7 @@ def run(chk):
                     chk.fail("centroids after stopping at iteration %d differ from the %d-iteration centroids" % (kstar, kstar), dict(ctx, threshold=th))
     # ---- exact ties: samples and centroids on an integer grid (all distances exact in binary64), one iteration; a tied sample belongs to the
     #      FIRST nearest centroid only, every centroid is the mean of its members, the distortion does not rise; and a cap of 0 iterations
-    for i in range(12 if chk.tier == "quick" else 120):
+    for i in range(12 if chk.tier == "quick" else 600):
         K, D = r.choice([2, 3]), r.choice([1, 2])
         N = r.choice([5, 8, 12])
         g = gen.nprng(r)
